@@ -426,6 +426,8 @@ func (v *VM) LoadWithFlags(prog []byte, f callflag.CallFlag) {
 	// Clear all stacks and state, it could be a reload.
 	v.istack = v.istack[:0]
 	v.estack.Clear()
+	v.uncaughtException = nil
+	v.refs = 0
 	v.state = vmstate.None
 	v.gasConsumed = uint256.NewInt(0)
 	v.invTree = nil
